@@ -44,6 +44,20 @@ PROPS = {
                          "hand-written parser model Redproxy/Model/MiluParser.lean; template strings and \\u escapes not modelled"],
         "assumptions": [],
     },
+    "C02": {
+        "props_module": "Redproxy.Props.C02",
+        "mode": "c02",
+        "session_start": "W ",
+        "rule": "worlds (1-4 recording connectors with random feature sets, 0-8 rules: deny / connector / unknown target, no filter / one of 36 filters "
+                "over every request attribute incl. ones that fail to evaluate / an invalid filter) installed through the real set_rules, then 2-6 "
+                "requests each (6 request shapes x random payload x random set of refusing connectors) through the real process_request; "
+                "cidr_match: 11+10 fixed and random IPv4/IPv6 addresses x random networks of every prefix length + each address against every one of its "
+                "own prefixes + 55 text forms; a routing session is non-trivial if it holds >= 2 lines; distinct = distinct sessions / cidr lines",
+        "nontrivial_min_lines": 2,
+        "trusted_base": ["hand-written router model Redproxy/Model/Route.lean + evaluator model (C08) + Cidr model tied to set_rules / process_request / "
+                         "cidr_match by exact correspondence", "recording connectors and in-memory duplex streams stand for upstreams and the client"],
+        "assumptions": ["std::net / crate cidr text parsers behave as modelled (sampled by the correspondence)"],
+    },
     "C08": {
         "props_module": "Redproxy.Props.C08",
         "mode": "c08",
